@@ -1,8 +1,10 @@
 package graph
 
 import (
+	"cmp"
 	"errors"
 	"fmt"
+	"slices"
 
 	"gonum.org/v1/gonum/graph"
 	"gonum.org/v1/gonum/graph/encoding"
@@ -68,7 +70,11 @@ func (g *AuthorizationModelGraph) Reversed() (*AuthorizationModelGraph, error) {
 		graphBuilder.AddNode(nextNode)
 	}
 
-	// Add all edges as-is, but with their From and To flipped.
+	// Collect all lines first: the edge and line iterators are backed by maps, so adding the lines
+	// in iteration order would hand out fresh line ids in a random order and change the relative order
+	// of parallel lines (and with it the DOT rendering) from one call to the next.
+	lines := make([]*AuthorizationModelEdge, 0)
+
 	iterEdges := g.Edges()
 	for iterEdges.Next() {
 		nextEdge, ok := iterEdges.Edge().(multi.Edge)
@@ -83,8 +89,17 @@ func (g *AuthorizationModelGraph) Reversed() (*AuthorizationModelGraph, error) {
 			if !ok {
 				return nil, fmt.Errorf("%w: could not cast to AuthorizationModelEdge", ErrBuildingGraph)
 			}
-			graphBuilder.AddEdge(nextLine.To(), nextLine.From(), casted.edgeType, casted.tuplesetRelation, casted.conditions)
+			lines = append(lines, casted)
 		}
+	}
+
+	slices.SortFunc(lines, func(a, b *AuthorizationModelEdge) int {
+		return cmp.Compare(a.ID(), b.ID())
+	})
+
+	// Add all edges as-is, but with their From and To flipped.
+	for _, line := range lines {
+		graphBuilder.AddEdge(line.To(), line.From(), line.edgeType, line.tuplesetRelation, line.conditions)
 	}
 
 	// Make a brand new copy of the map.
